@@ -35,6 +35,9 @@ def check(tier, seed):
     with C.WorkDir('C08') as wd:
         C.audit_sources()
         C.props_obligations(res, 'C08', wd)
+        a_ = list(res.assumption_lines)
+        C.props_obligations(res, 'C08b', wd)
+        res.assumption_lines = a_ + res.assumption_lines
         rng = C.rng_for(seed, 'C08')
         mt = R.message_table()
         cases = []
